@@ -3,6 +3,7 @@
 -/
 import SfProofs.RdwrReopen
 import SfProofs.RdwrAbs
+import SfProofs.HandleContract
 namespace Sf
 
 theorem RwInv.nframes {h : H} {s : Store} (i : RwInv h s) : ((absOf h s).frames.length : Int) = h.frames := by
@@ -229,5 +230,70 @@ theorem reopen_effect (h : H) (s : Store) (inv : RwInv h s) {fmt : Nat} {ch sr :
       omega
     obtain ⟨h', s', ho, r⟩ := v.reopen_wav cfg hc hsr hg ix pos fmt ch sr (by rw [cfg.cont, hc]; simp)
     exact ⟨h', s', ho, hfin h' s' r⟩
+
+/-- the re-opened handle delivers the final frames: a frames-call for the whole file returns all `F` frames, and
+    the buffer is the decoding of exactly the stored frames -/
+theorem Reopened.read_all {h h' : H} {F : Nat} {D : List Byte} {s' : Store} (r : Reopened h F D h' s')
+    (hi : HInv h' s') (hD : D.length = F * h.bw) (hF : 0 < F) (ty : Ty) :
+    (stepRead h' s' ty true (F : Int)).2.2.ret = (F : Int) ∧ (stepRead h' s' ty true (F : Int)).2.2.err = 0 ∧
+    (stepRead h' s' ty true (F : Int)).2.2.data = h'.enc.decodeAll h'.conv ty D := by
+  obtain ⟨m, d, hlen, hd, hret, _, herr, hdl, hdata⟩ :=
+    read_rmode_full h' s' ty true (F : Int) hi r.mode (by omega) (Or.inl rfl)
+  have hch : 0 < h'.ch := hi.ch_pos
+  have hm : m = F := by
+    unfold reqLen at hlen
+    simp only [if_true] at hlen
+    have : (F : Int) = (m : Int) := Int.eq_of_mul_eq_mul_right (by omega) hlen
+    omega
+  subst hm
+  have hd' : d = m := by rw [r.frames, r.rpos] at hd; omega
+  subst hd'
+  obtain ⟨tail, ht⟩ := r.data
+  have eb : h'.enc.nbytes * h'.ch = h.bw := by unfold H.bw; rw [r.enc, r.ch]
+  have hstream : itemStream h' s'.bytes ty = h'.enc.decodeAll h'.conv ty D ++ h'.enc.decodeAll h'.conv ty tail := by
+    unfold itemStream
+    rw [r.doff, Int.toNat_natCast, ht]
+    exact Enc.decodeAll_append _ _ _ hi.nb_pos (d * h'.ch) D tail (by
+      rw [hD, ← eb, Nat.mul_assoc, Nat.mul_comm h'.ch])
+  have hvl : (h'.enc.decodeAll h'.conv ty D).length = d * h'.ch := by
+    rw [Enc.decodeAll_length _ _ _ hi.nb_pos, hD, ← eb, Nat.mul_comm h'.enc.nbytes, ← Nat.mul_assoc,
+      Nat.mul_div_cancel _ hi.nb_pos]
+  refine ⟨by rw [hret]; rfl, herr, ?_⟩
+  rw [r.rpos, hstream] at hdata
+  simp only [Int.toNat_zero, Nat.zero_mul, List.drop_zero] at hdata
+  rw [← hvl, List.take_left' rfl] at hdata
+  rw [← hdata, hvl, ← hdl, List.take_length]
+
+theorem reopen_read_all (h : H) (s : Store) (inv : RwInv h s) {fmt : Nat} {ch sr : Int} (cfg : CfgOf fmt ch sr h)
+    (hsr : sr ≤ 0x7FFFFFFF) (hguard : h.container = .wav → h.frames * (h.bw : Int) < 0xFFFFFFFF) (hF : 0 < h.frames)
+    (ix pos : Nat) (ty : Ty) :
+    ∃ h' s', openHandle ix ⟨(closeHandle h s).bytes, pos⟩ .r fmt ch sr = .ok h' s' ∧ h'.frames = h.frames ∧
+      (stepRead h' s' ty true h.frames).2.2.ret = h.frames ∧ (stepRead h' s' ty true h.frames).2.2.err = 0 ∧
+      (stepRead h' s' ty true h.frames).2.2.data = h'.enc.decodeAll h'.conv ty (absOf h s).frames.flatten := by
+  obtain ⟨R, W, F, hdr, D, v⟩ := inv
+  have hflat : (absOf h s).frames.flatten = D := by rw [v.abs]; exact groups_join _ v.bw_pos F D v.dlen
+  rw [hflat, v.frames]
+  rw [v.frames] at hF
+  have hfin : ∀ h' s', openHandle ix ⟨(closeHandle h s).bytes, pos⟩ .r fmt ch sr = .ok h' s' → Reopened h F D h' s' →
+      h'.frames = (F : Int) ∧
+      (stepRead h' s' ty true (F : Int)).2.2.ret = (F : Int) ∧ (stepRead h' s' ty true (F : Int)).2.2.err = 0 ∧
+      (stepRead h' s' ty true (F : Int)).2.2.data = h'.enc.decodeAll h'.conv ty D := by
+    intro h' s' ho r
+    exact ⟨r.frames, r.read_all (HInv_openHandle _ _ _ _ _ _ _ _ ho) v.dlen (by omega) ty⟩
+  cases hc : h.container with
+  | raw =>
+    obtain ⟨h', s', ho, r⟩ := v.reopen_raw cfg hc ix pos
+    exact ⟨h', s', ho, hfin h' s' ho r⟩
+  | au =>
+    obtain ⟨h', s', ho, r⟩ := v.reopen_au cfg hc hsr ix pos fmt ch sr (by rw [cfg.cont, hc]; simp)
+    exact ⟨h', s', ho, hfin h' s' ho r⟩
+  | wav =>
+    have hg : D.length < 0xFFFFFFFF := by
+      have := hguard hc
+      rw [v.frames] at this
+      have e : ((D.length : Nat) : Int) = (F : Int) * (h.bw : Int) := by rw [v.dlen]; push_cast; rfl
+      omega
+    obtain ⟨h', s', ho, r⟩ := v.reopen_wav cfg hc hsr hg ix pos fmt ch sr (by rw [cfg.cont, hc]; simp)
+    exact ⟨h', s', ho, hfin h' s' ho r⟩
 
 end Sf
